@@ -228,8 +228,16 @@ func c16GenTree(rng *vh.Rand) *c16Gen {
 				g.add("objects/"+c.id[:8], "f", content, "")
 				g.add(name, "l", []byte("../objects/"+c.id[:8]), "symlink-chunk-inside")
 			case 1:
-				g.outside = append(g.outside, fsEnt{Path: c.id[:8], Kind: "f", Data: content})
-				g.add(name, "l", []byte("../../o/"+c.id[:8]), "symlink-chunk-outside")
+				// one outside file per (id, format) slot; a slot drawn again gets the new content
+				on := c.id[:8] + map[bool]string{true: "-u", false: "-c"}[unc]
+				kept := g.outside[:0:0]
+				for _, e := range g.outside {
+					if e.Path != on {
+						kept = append(kept, e)
+					}
+				}
+				g.outside = append(kept, fsEnt{Path: on, Kind: "f", Data: content})
+				g.add(name, "l", []byte("../../o/"+on), "symlink-chunk-outside")
 			default:
 				g.add(name, "l", []byte("../../o/missing-"+c.id[:6]), "symlink-chunk-dangling")
 			}
